@@ -113,6 +113,14 @@ POOL = [
     ("PERCENT-COMPLETE:50", "PERCENT-COMPLETE", {}, lambda v: isinstance(v, int) and int(v) == 50, None),
     ("LOCATION;ALTREP=\"http://x.example/a,b\":Room\\; 1 ünï", "LOCATION", {"ALTREP": "http://x.example/a,b"}, T("Room; 1 ünï"), None),
     ("COMPLETED:20240102T030405Z", "COMPLETED", {}, lambda v: _dt(v, datetime(2024, 1, 2, 3, 4, 5), 0), None),
+    # Unicode hazards (vf/hazards.py): carried through unchanged, whether the text arrives as str or as bytes
+    ("SUMMARY:caf\u0065\u0301 \u2126 \u212a \u037e \uff1b\uff1a\uff0c x", "SUMMARY", {}, T("caf\u0065\u0301 \u2126 \u212a \u037e \uff1b\uff1a\uff0c x"), None),
+    ("DESCRIPTION:\u00a0lead and trail\u3000", "DESCRIPTION", {}, T("\u00a0lead and trail\u3000"), None),
+    ("LOCATION:zwj \U0001F468\u200d\U0001F469 soft\u00adhyphen inner\ufeffbom pua\ue000", "LOCATION", {},
+     T("zwj \U0001F468\u200d\U0001F469 soft\u00adhyphen inner\ufeffbom pua\ue000"), None),
+    ("ATTENDEE;CN=Smith\u037eROLE=CHAIR;X-W=\u2003pad\u00a0:mailto:u@example.com", "ATTENDEE", {"CN": "Smith\u037eROLE=CHAIR", "X-W": "\u2003pad\u00a0"},
+     T("mailto:u@example.com"), None),
+    ("COMMENT:line\u2028sep\u0085nel\u000bvt", "COMMENT", {}, T("line\u2028sep\u0085nel\u000bvt"), None),
     # years below 1000: four digits on the wire (strftime('%Y') does not pad on every platform)
     ("DTSTART;VALUE=DATE:09991231", "DTSTART", {"VALUE": "DATE"}, lambda v: _dt(v, date(999, 12, 31)), None),
     ("DUE:01230101T000000", "DUE", {}, lambda v: _dt(v, datetime(123, 1, 1)), None),
